@@ -554,5 +554,12 @@ pub mod pgateway {
             env.storage().instance().get::<_, Val>(&GKey::Answer).unwrap_or(Val::VOID.to_val())
         }
         pub fn call_contract(_env: Env, _caller: Address, _destination_chain: String, _destination_address: String, _payload: Bytes) {}
+        /// The views answer like `validate_message` would (without counting).
+        pub fn is_message_approved(env: Env, _source_chain: String, _message_id: String, _source_address: String, _contract_address: Address, _payload_hash: BytesN<32>) -> Val {
+            env.storage().instance().get::<_, Val>(&GKey::Answer).unwrap_or(Val::VOID.to_val())
+        }
+        pub fn is_message_executed(_env: Env, _source_chain: String, _message_id: String) -> bool {
+            false
+        }
     }
 }
